@@ -86,7 +86,7 @@ func lastLines(s string, n int) string {
 
 // C13: a WAF follows its own configuration only; pattern caching is invisible.
 func C13(run *vf.Run) {
-	run.Rule = "Memo.tla: the process-wide pattern cache seen from the WAFs that use it: per call site, which bytes of a configuration become the key and which artefact is stored; TLC checks CacheInvisible (every Do returns the artefact the caller would have built itself: same kind, same content) over all histories of building / closing up to MaxWAFs WAFs drawn from a pool of configurations that reuse one string in different roles (@pm word list, regex target key, @restpath, SecAuditLogRelevantStatus, ctl regex key, a data-set name with different contents, a file name under different roots, @rx, a two-word @pm list next to a data set holding the same two words as one phrase, one schema file name under two roots with equal-size schemas), and emits the histories; each history is replayed in ONE process of a probe program built from /repo (WAFs built / closed in that order, each probed right after construction and again at the end) and every WAF's build result and probe outcomes are compared with the same configuration built alone in a fresh process, and with a probe program built with -tags coraza.no_memoize. Self-test: with the key design of the pinned commit (the author's text alone) TLC must find a CacheInvisible violation. Non-trivial = history with at least two WAFs"
+	run.Rule = "Memo.tla: the process-wide pattern cache seen from the WAFs that use it: per call site, which bytes of a configuration become the key and which artefact is stored; TLC checks CacheInvisible (every Do returns the artefact the caller would have built itself: same kind, same content) over all histories of building / closing up to MaxWAFs WAFs drawn from a pool of configurations that reuse one string in different roles (@pm word list, regex target key, @restpath, SecAuditLogRelevantStatus, ctl regex key, a data-set name with different contents, a file name under different roots, @rx, a two-word @pm list next to a data set holding the same two words as one phrase, one schema file name under two roots with equal-size schemas, one regex key text on a case-sensitive and on a case-insensitive collection), and emits the histories; each history is replayed in ONE process of a probe program built from /repo (WAFs built / closed in that order, each probed right after construction and again at the end) and every WAF's build result and probe outcomes are compared with the same configuration built alone in a fresh process, and with a probe program built with -tags coraza.no_memoize. Self-test: with the key design of the pinned commit (the author's text alone) TLC must find a CacheInvisible violation. Non-trivial = history with at least two WAFs"
 	run.Exhaustive = true
 	run.Assume("TLC explores the bounded Memo instance completely; concurrent use of the cache is the subject of C06")
 	// design self-test
@@ -142,7 +142,7 @@ func C13(run *vf.Run) {
 		return
 	}
 	// reference: every configuration alone, in a fresh process, with and without the cache
-	nCfg := 15
+	nCfg := 17
 	alone := map[int]string{}
 	for c := 1; c <= nCfg; c++ {
 		a, e1 := runProbe(binMemo, [][]any{{"build", c}})
